@@ -12,7 +12,7 @@ from tools.vlib import Outcome, sx
 MANIFEST = {
     "level_text": "Coq theorems (Properties/C20.v, no axioms) about a statement-by-statement Gallina transcription of topological_visit/topological_sort_types and of resolve_build_order, for every graph, request set and hash iteration order: termination, exactly-once, exactly the reachable set, every direct dependency first unless on a common cycle (transitively on acyclic graphs), Kahn Ok iff acyclic and Ok lists valid. The model is tied to /repo on every run by running both on the same graphs under the hash orders the implementation actually used (equal output lists), exhaustively on small graphs.",
     "design_ref": "DESIGN.md section 5 C20",
-    "level_note": "Trusted: Coq kernel; the hand-written model's tie to the code is differential (bounded); Spec/P20.v boolean oracle unproven; hash orders of DependencyResolver are not observable so only Ok/Err and validity are compared there.",
+    "level_note": "Trusted: Coq kernel; the hand-written model's tie to the code is differential (bounded); run-time oracle proved equivalent to the statements (C20_*_oracle_exact); hash orders of DependencyResolver are not observable so only Ok/Err and validity are compared there.",
     "technique": "Rocq/Coq proof over hand-written model + correspondence check (extracted OCaml vs Rust harness)"
 }
 
@@ -20,7 +20,7 @@ RULE = ("topo: every digraph on <=3 (quick) / <=4 (thorough) labelled nodes incl
         "plus random graphs up to 12 nodes, each evaluated under 3 fresh RandomState keys; kahn: every dependency multiset "
         "drawn from those digraphs plus random multigraphs with duplicate edges. A case is non-trivial when it has at least "
         "one edge; distinct = distinct (graph, request) pairs")
-TRUSTED = ["Spec/P20.v boolean checkers (closure-based reachability) are the run-time oracle; not proved equivalent to the Prop statements"]
+TRUSTED = ["Spec/P20.v boolean checkers are the run-time oracle applied to the implementation's answers; proved equivalent to the Prop statements (C20_topo_oracle_exact, C20_kahn_oracle_exact)"]
 ASSUMPTIONS = ["HashSet iteration order of an unmodified set is stable between two traversals (used to feed the observed order to the model)"]
 
 
